@@ -55,6 +55,9 @@ pub struct HistOp {
     pub split: SplitMode,
     pub sched: SchedMode,
     pub hooks: bool,
+    /// Preempt at the basic-block guards of the instrumented library (any block, also in code
+    /// without hooks) and at rarely executed sites.
+    pub bb: bool,
     /// Which of the plan's inputs (`Plan::cases`) the call is made with.
     pub case: usize,
     /// A second call running concurrently on the same pool (both are started
@@ -99,6 +102,9 @@ impl Default for Limits {
 /// Everything about run `run_index` is a pure function of (seed, index, limits).
 pub fn plan_run(verif_seed: u64, run_index: u64, lim: &Limits) -> Plan {
     let mut rng = Rng::new(mix(verif_seed, run_index, 0xC09));
+    // later additions draw from a stream of their own, so that the rest of a plan is what it was
+    let mut rng_bb = Rng::new(mix(verif_seed, run_index, 0xBB09));
+    let fav_bb = rng_bb.chance(0.35);
     // a few runs are large: thresholds on the number of cells (block sizes,
     // "small input" shortcuts) are invisible below them
     let big = lim.max_n >= 200 && rng.chance(0.015);
@@ -176,6 +182,7 @@ pub fn plan_run(verif_seed: u64, run_index: u64, lim: &Limits) -> Plan {
             split,
             sched,
             hooks: lim.allow_hooks && rng.chance(0.6),
+            bb: lim.allow_hooks && !big && rng_bb.chance(if fav_bb { 0.7 } else { 0.08 }),
             case,
             with,
         });
@@ -238,6 +245,7 @@ fn exec_sim_inner(plan: &Plan, replay: Option<Vec<u32>>, watchdog_s: u64) -> Run
         split: SplitMode::Adaptive,
         sched: SchedMode::Seq,
         preempt_hooks: false,
+        preempt_bb: false,
         mean_gap: plan.mean_gap,
         pct_depth: plan.pct_depth,
         watchdog_s,
@@ -251,6 +259,7 @@ fn exec_sim_inner(plan: &Plan, replay: Option<Vec<u32>>, watchdog_s: u64) -> Run
         marks.push(sim.decisions_len());
         sim.set_pool(h.pool.min(plan.pool_sizes.len() - 1));
         sim.set_modes(h.split, h.sched, h.hooks);
+        sim.set_preempt_bb(h.bb);
         let case = &plan.cases[h.case.min(last)];
         match h.with {
             None => outcomes.push((s_sim::run_op(case, h.op), None)),
@@ -559,6 +568,7 @@ pub fn plan_to_json(plan: &Plan) -> J {
                     .set("split", J::s(split_name(h.split)))
                     .set("sched", J::s(sched_name(h.sched)))
                     .set("hooks", J::Bool(h.hooks))
+                    .set("bb", J::Bool(h.bb))
                     .set("case", J::u(h.case as u64))
                     .set(
                         "with",
@@ -585,6 +595,7 @@ pub fn plan_from_json(j: &J) -> Result<Plan, String> {
                 split: split_from(h.get("split").and_then(|o| o.as_str()).unwrap_or("adaptive")).ok_or("unknown split")?,
                 sched: sched_from(h.get("sched").and_then(|o| o.as_str()).unwrap_or("seq")).ok_or("unknown sched")?,
                 hooks: h.get("hooks").and_then(|b| b.as_bool()).unwrap_or(false),
+                bb: h.get("bb").and_then(|b| b.as_bool()).unwrap_or(false),
                 case: h.get("case").and_then(|p| p.as_u64()).unwrap_or(0) as usize,
                 with: match h.get("with") {
                     None | Some(J::Null) => None,
@@ -870,6 +881,13 @@ pub fn minimise(plan: &Plan, decisions: &[u32], marks: &[usize], v: &Violation, 
 
     // 4. turn hook preemption off
     for i in 0..best_plan.history.len() {
+        if best_plan.history[i].bb {
+            let mut p = best_plan.clone();
+            p.history[i].bb = false;
+            if let Some(f) = try_cand(&p, &best_dec, 1, &mut evals) {
+                accept!(f, format!("op {}: basic-block preemption off", i));
+            }
+        }
         if best_plan.history[i].hooks {
             let mut p = best_plan.clone();
             p.history[i].hooks = false;
